@@ -17,9 +17,6 @@ Proof.
     destruct (span_seg p) as [a b]. injection H as <- <-. now rewrite (IH a b eq_refl).
 Qed.
 
-Lemma no_newline_snoc_slash p : no_newline (p ++ [slash]) = no_newline p.
-Proof. unfold no_newline. rewrite forallb_app. cbn. now rewrite andb_true_r. Qed.
-
 (* the compiled expression on p ++ "/": the same captures, the final group one slash longer *)
 Lemma jsr_match_app_slash toks : forall p,
   forallb (etok_plain O) toks = true ->
@@ -28,9 +25,7 @@ Lemma jsr_match_app_slash toks : forall p,
 Proof.
   induction toks as [|t toks IH]; intros p Hpl.
   - destruct p as [|c p]; [reflexivity|]. cbn [app jsr_match].
-    destruct (Ascii.eqb c slash); [|reflexivity]. cbn [andb].
-    change (c :: p ++ [slash]) with ((c :: p) ++ [slash]). rewrite no_newline_snoc_slash.
-    destruct (no_newline (c :: p)); reflexivity.
+    destruct (Ascii.eqb c slash); reflexivity.
   - cbn [forallb] in Hpl. apply andb_true_iff in Hpl as [Ht Hrest].
     destruct p as [|c p1].
     + (* the path ended: the extra slash opens an empty segment, which no plain token accepts *)
@@ -67,7 +62,7 @@ Proof.
   induction toks as [|t toks IH]; intros p caps fin H.
   - destruct p as [|c p]; cbn [jsr_match] in H.
     + injection H as <- <-. exists []. reflexivity.
-    + destruct (Ascii.eqb c slash && no_newline (c :: p)); [|discriminate H]. injection H as <- <-. exists []. reflexivity.
+    + destruct (Ascii.eqb c slash); [|discriminate H]. injection H as <- <-. exists []. reflexivity.
   - destruct p as [|c p1]; [cbn in H; discriminate H|]. cbn [jsr_match] in H.
     destruct (Ascii.eqb c slash); cbn [negb] in H; [|discriminate H].
     destruct t.
@@ -83,7 +78,7 @@ Proof.
       destruct (jsr_match O toks rest) as [[caps' fin']|] eqn:Em; [|discriminate H]. injection H as <- <-.
       destruct (IH rest caps' fin' Em) as (pre & ->). exists (c :: seg ++ pre).
       rewrite (span_seg_app p1 seg _ Es). cbn. now rewrite <- app_assoc.
-    + destruct toks; [|discriminate H]. destruct (no_newline p1); [|discriminate H]. injection H as <- <-.
+    + destruct toks; [|discriminate H]. injection H as <- <-.
       exists (c :: p1). now rewrite app_nil_r.
 Qed.
 
